@@ -393,9 +393,9 @@ func c20Trans(env *c20Env) []c20TransRow {
 		expect string      // canonical JSON expected at the documented key
 	}
 	vals := map[string]val{
-		"package":               {"other", "other", `"other"`},
-		"output":                {"out.go", "out.go", `"out.go"`},
-		"o":                     {nil, "out.go", `"out.go"`},
+		"package": {"other", "other", `"other"`},
+		"output":  {"out.go", "out.go", `"out.go"`},
+		"o":       {nil, "out.go", `"out.go"`},
 		// tags may hold blanks: only the blanks around an item are trimmed
 		"include-tags":          {[]interface{}{"pet store", "b"}, " pet store , b", `["pet store","b"]`},
 		"exclude-tags":          {[]interface{}{"a", "pet store"}, "a,pet store", `["a","pet store"]`},
